@@ -695,6 +695,19 @@ def run_bqm(c):
                 clist([cpair(cnat(T.idx(u)), cnat(T.idx(v))) for u, v in bquad]),
                 cbool(rejected), cnat(len(recs[i + 1].attempts))))
             feats["struct_rejected"] = feats.get("struct_rejected") or rejected
+    # sample_ising / sample_qubo mixin of a composite: the BQM it handed to its own sample method
+    for i in range(len(recs) - 1):
+        if recs[i].attempts and recs[i + 1].attempts and recs[i].attempts[-1][0] in ('ising', 'qubo') \
+                and recs[i + 1].attempts[-1][0] == 'sample':
+            m, inp = recs[i].attempts[-1]
+            if m == 'ising':
+                ht = clist([cpair(cnat(T.idx(v)), cq(F(b))) for v, b in inp[0].items()])
+                jt = clist([f"({cnat(T.idx(u))}, {cnat(T.idx(v))}, {cq(F(b))})" for (u, v), b in inp[1].items()])
+            else:
+                ht = "[]"
+                jt = clist([f"({cnat(T.idx(u))}, {cnat(T.idx(v))}, {cq(F(b))})" for (u, v), b in inp.items()])
+            terms.append("(CEntry %s %s %s %s %s)" % (cnat(len(T) + 2), cbool(m == 'qubo'), ht, jt,
+                                                      bqm_obs_term(T, recs[i + 1].attempts[-1][1])))
     if raised == 'structure' and not feats.get("struct_rejected"):
         py_fail = "BinaryQuadraticModelStructureError raised but no structure layer rejected"
     # the base sampler, on what it was given and what it returned
